@@ -37,18 +37,26 @@ BUDGET_S = {"quick": 200, "thorough": 1700}
 K_IDEM = 50.0
 K_COMM = 5.0e3      # eV
 K_REPRO = 300.0
+# UHF: the repository's stopping rule tests the *total* density change (dP_alpha + dP_beta); spin-polarisation
+# modes largely cancel in that sum, so per-spin commutator / re-diagonalisation residuals of radicals sit above the
+# closed-shell ones by a mode-dependent factor (measured <= 2.7x the RHF constants over ~600 UHF cases).  They are
+# still proportional to eps; the constant is calibrated (not derived) and stated here.
+S_UHF = 5.0
 TOL_SYM = 1.0e-12
 TOL_E = 1.0e-9
 GAP_MIN = 1.0e-3    # eV, eligibility of the re-diagonalisation clause
 
 # largest back-edge count any *converging* run shows (calibrated on the thorough tier, see summarize();
 # failpoint bound = max(10 x this, structural cap + 2))
-CONV_MAX = {"SP2": 200, "scf_forward0": 700, "scf_forward1": 300, "scf_forward2": 300, "scf_forward3": 100,
-            "adaptive_mix": 20, "Fermi_Q": 30, "Canon_DM_PRT": 8}
-SP2_BOUND = 300
 DEFAULT_CAP = 1000
+# (the outer SCF loops are range-capped by MAX_ITER, and converging runs with alpha = 0.9 / eps = 1e-11 do use up to
+# ~950 iterations, so their "largest converging count" is taken as the default cap itself)
+CONV_MAX = {"SP2": 200, "scf_forward0": DEFAULT_CAP + 1, "scf_forward1": DEFAULT_CAP + 1, "scf_forward2": DEFAULT_CAP + 1,
+            "scf_forward3": DEFAULT_CAP + 1, "adaptive_mix": 20, "Fermi_Q": 30, "Canon_DM_PRT": 8,
+            "fixed_point_anderson": 200, "fixed_point_picard": 200}
+SP2_BOUND = 300
 
-KSA = {"T_el": 300.0, "max_rank": 3, "err_threshold": 0.0}
+KSA = {"T_el": 100.0, "max_rank": 3, "err_threshold": 0.0}
 METHODS = ["AM1", "PM3", "MNDO", "PM6_SP"]
 SMALL_RHF = ["H2O", "NH3", "CH4", "HF", "CO", "HCN", "CH2O", "N2", "C2H2", "H2", "CO2", "CH3OH", "C2H4", "HCOOH",
              "CH3F", "HOOH", "N2O", "CH3NH2", "F2", "HNO", "LiH", "BeH2", "BH3", "HCl", "H2S", "PH3", "SiH4",
@@ -93,6 +101,10 @@ def gen_cases(tier, seed):
         cases.append({"kind": "sp2-padded-ion", "mols": [_mk_mol(g, a, 1.0), _mk_mol(g, b, 1.0)], "pad": 0,
                       "method": "AM1", "conv": cv, "sp2": tol, "eps": 1e-8, "start": "default", "cap": None,
                       "uhf": False, "backward": 0})
+    # KSA on the smallest systems (Krylov rank >= number of independent density rotations)
+    for name, meth in [("H2", "AM1"), ("LiH", "MNDO"), ("HF", "AM1")] + ([("H2", "PM3"), ("HCl", "AM1"), ("BeH2", "MNDO")] if tier == "thorough" else []):
+        cases.append({"kind": "ksa-small", "mols": [_mk_mol(g, name, 1.0)], "pad": 0, "method": meth, "conv": [3, dict(KSA)],
+                      "sp2": None, "eps": 1e-8, "start": "default", "cap": None, "uhf": False, "backward": 0})
     # scf_backward=1: reaches the implicit-adjoint fixed-point loops from the same public call
     for name in (["H2O", "CH2O"] if tier == "quick" else ["H2O", "CH2O", "NH3", "HCN", "CH3OH", "C2H4"]):
         cases.append({"kind": "backward", "mols": [_mk_mol(g, name, 1.0)], "pad": 0, "method": "AM1",
@@ -248,9 +260,15 @@ def run_case(case):
             if k in loc and torch.is_tensor(loc[k]):
                 ksa_log[k] = loc[k].detach().numpy().copy()
         ksa_log["COUNTER"] = int(loc.get("COUNTER", -1))
-        d, n = loc.get("dDS"), loc.get("nHeavy")
+        d = loc.get("dDS")
         if torch.is_tensor(d):
             ksa_log["dDS_max"] = d.detach().abs().amax(dim=(1, 2)).numpy().copy()
+            ksa_log["dDS_fro"] = torch.linalg.norm(d.detach(), dim=(1, 2)).numpy().copy()
+        # the solver's own normalisation of the rms test (padded matrix dimension, as handed to get_error elsewhere)
+        try:
+            ksa_log["size"] = (loc["nSuperHeavy"] * 9 + loc["nHeavy"] * 4 + loc["nHydro"] * 4).detach().numpy().astype(float)
+        except Exception:
+            pass
 
     lw.on_return(sl.scf_forward3, ksa_reader)
     elog = scfmon.ErrorLog(eps)
@@ -347,14 +365,28 @@ def run_case(case):
         if ksa_log["COUNTER"] > cap + 1:
             viol.append({"clause": "iteration-cap-exceeded", "mech": None,
                          "detail": dict(detail_common, iterations=ksa_log["COUNTER"])})
+        # KSA has no get_error call: its last-iteration energy change and density residual D(F[P]) - P are read
+        # from the returning frame and judged with the same three-part rule (the residual is the quantity the
+        # solver's density test speaks about)
         kerr = np.asarray(ksa_log.get("err", np.full(nrow, np.nan))).reshape(-1)
+        kmax = np.asarray(ksa_log.get("dDS_max", np.full(nrow, np.nan))).reshape(-1)
+        kfro = np.asarray(ksa_log.get("dDS_fro", np.full(nrow, np.nan))).reshape(-1)
         for b in range(nrow):
-            mon["flag_rows_checked"] += 0 if flag[b] else 1
-            if not flag[b] and not (kerr[b] <= eps * (1 + 1e-9)):
-                viol.append({"clause": "flag-converged-but-threshold-not-met", "mech": None,
-                             "detail": dict(detail_common, row=b, last_dE=float(kerr[b]), eps=eps)})
+            if flag[b]:
+                continue
+            mon["flag_rows_checked"] += 1
+            size = float(ksa_log["size"][b]) if "size" in ksa_log else 4.0 * sum(1 for z in S[b] if z > 0)
+            crit = [kerr[b] / (scfmon.K_DE * eps), kfro[b] / size / (scfmon.K_RMS * eps), kmax[b] / (scfmon.K_MAX * eps)]
+            if not all(np.isfinite(c) for c in crit):
+                continue   # non-finite state: judged by clause (A) "non-finite-result-flagged-converged"
+            if max(crit) > 1.0 + 1e-9:
+                mech = "ksa-stops-on-energy-only" if crit[0] <= 1.0 + 1e-9 else None
+                viol.append({"clause": "flag-converged-but-threshold-not-met", "mech": mech,
+                             "detail": dict(detail_common, row=b, last_dE=float(kerr[b]), residual_max=float(kmax[b]),
+                                            residual_rms=float(kfro[b] / size), eps=eps,
+                                            criteria_over_threshold=[float(c) for c in crit])})
         obs["ksa_last"] = {"dE": [float(x) for x in kerr], "iterations": ksa_log["COUNTER"],
-                           "resid_max": [float(x) for x in ksa_log.get("dDS_max", [])]}
+                           "resid_max": [float(x) for x in kmax]}
 
     # ---------------- (A) converged => residuals small ------------------------------------------
     P = mol.dm.detach()
@@ -362,19 +394,12 @@ def run_case(case):
         F, H = scfmon.rebuild_fock(mol, P)
     except Exception as exc:
         return {"inconclusive": "Fock rebuild failed: %r" % (exc,), "monitors": mon, "cells": cells}
-    F_r1 = None
-    try:
-        from vlib.ref import nddo as r1  # optional second, independent rebuild
-        if hasattr(r1, "fock_from_density"):
-            F_r1 = r1.fock_from_density(method, S, C, P.numpy())
-            mon["r1_rebuilds"] += 1
-    except Exception:
-        F_r1 = None
     Pn = P.numpy()
     Ee = np.asarray(out["Eelec"]).reshape(-1)
     q = np.asarray(out["q"])
     judged = 0
     resid_rows = []
+    su = S_UHF if uhf else 1.0
     for b in range(nrow):
         if flag[b]:
             continue
@@ -385,32 +410,46 @@ def run_case(case):
         bad = []
         nbas = len(scfmon.real_orbital_index(S[b]))
         if not r["finite"]:
-            viol.append({"clause": "non-finite-result-flagged-converged", "mech": None, "detail": dict(detail_common, row=b)})
+            viol.append({"clause": "non-finite-result-flagged-converged",
+                         "mech": "ksa-nan-density-flagged-converged" if conv[0] == 3 else None,
+                         "detail": dict(detail_common, row=b, coords=C[b], Eelec=repr(Ee[b]))})
             continue
         # linear mixing keeps tr(P_k) - N = alpha^k (tr(P_0) - N); the element-wise stopping rule then gives
         # |tr P - N| <= alpha/(1-alpha) * n_orb * 15 eps (only a start density with a wrong trace uses this term)
-        tol_trace = 1e-9 + 10.0 * sp2e + K_TRACE_EPS * nbas * eps * alpha * A
+        # KSA: P_k = P_(k-1) - dP with tr(dP) = tr(residual) (1 + o(1)), so |tr P - N| <= n_orb * max|residual| <= n_orb * 15 eps
+        tol_trace = 1e-9 + 10.0 * sp2e + K_TRACE_EPS * nbas * eps * (alpha * A if conv[0] == 0 else (1.0 if conv[0] == 3 else 0.0))
         checks = [("symmetry", r["symmetry"], TOL_SYM), ("padding", r["padding"], 1e-14),
                   ("trace", r["trace"], tol_trace), ("trace_spin", r["trace_spin"], tol_trace),
                   ("charge_sum", r["charge_sum"], tol_trace),
                   ("idempotency", r["idempotency"], 1e-12 + K_IDEM * eps_eff * A),
-                  ("commutator", r["commutator"], 1e-10 + K_COMM * eps_eff * A),
+                  ("commutator", r["commutator"], 1e-10 + K_COMM * eps_eff * A * su),
                   ("energy", r["energy"], TOL_E + 1e-13 * abs(r["E_functional"]))]
         if r["gap"] is not None and r["gap"] > GAP_MIN:
-            checks.append(("reproduction", r["reproduction"], 1e-10 + K_REPRO * eps_eff * A))
+            checks.append(("reproduction", r["reproduction"], 1e-10 + K_REPRO * eps_eff * A * su))
         else:
             mon["repro_ineligible_small_gap"] += 1
-        if F_r1 is not None:
-            r2 = scfmon.residuals(S[b], Pn[b], np.asarray(F_r1[b]), H[b], nel, na, nb, Ee[b], q[b], charges[b])
-            checks.append(("commutator_R1", r2["commutator"], 1e-5 + K_COMM * eps_eff * A))
+        # second rebuild: reference model R1 (independent implementation of the published NDDO equations)
+        r1 = None
+        if method in scfmon.R1_METHODS and len(S[b]) <= 9:
+            try:
+                r1 = scfmon.r1_residuals(method, S[b], C[b], Pn[b], F[b], nel, na, nb)
+            except ImportError:
+                r1 = None
+        if r1 is not None:
+            mon["r1_rebuilds"] += 1
+            allow = 4.0 * r1["nbas"] * scfmon.R1_DF      # |[dF,P]| <= 2 n |dF|max |P|max
+            checks.append(("commutator_R1", r1["commutator"], allow + K_COMM * eps_eff * A * su))
+            if r1["gap"] is not None and r1["gap"] > 0.5:
+                checks.append(("reproduction_R1", r1["reproduction"], allow / r1["gap"] + 1e-10 + K_REPRO * eps_eff * A * su))
+            obs["max_F_repo_minus_F_R1"] = max(obs.get("max_F_repo_minus_F_R1", 0.0), r1["dF"])   # C06's business; recorded only
         for name, val, tol in checks:
-            if upd(name + ("/" + tag if name in ("idempotency", "commutator", "reproduction") else ""), val, tol):
+            if upd(name + ("/" + tag + ("/uhf" if uhf else "") if name in ("idempotency", "commutator", "reproduction") else ""), val, tol):
                 bad.append((name, float(val), float(tol)))
         rr = {k: (float(v) if isinstance(v, (int, float)) and v is not None else v) for k, v in r.items()}
         resid_rows.append(rr)
         for name, val, tol in bad:
             mech = None
-            if conv[0] == 3 and name in ("idempotency", "commutator", "reproduction", "commutator_R1"):
+            if conv[0] == 3 and name in ("idempotency", "commutator", "reproduction", "commutator_R1", "reproduction_R1"):
                 # KSA met its own (energy-only) rule, yet the density residual of its last iteration is above
                 # the element-wise density criterion every other solver must meet
                 kerr_b = float(np.asarray(ksa_log.get("err", [np.nan] * nrow)).reshape(-1)[b])
